@@ -7,6 +7,8 @@ package main
 // count for a table), runs the public API call that reaches the site on the real library and prints
 // a canonical outcome; the Lean driver evaluates the model of the site on the same values.
 //
+//   gr  <0/1 per row>                           GetRows: rows r=1..n, empty or with a value; number of rows returned
+//   bs  <hex>                                   bstrUnmarshal (hook VerifBstrUnmarshal): result bytes
 //   st  <idx> <nXf> <fillP> <fillId> <nFills> <borderP> <borderId> <nBorders> <fontP> <fontId> <nFonts>   GetStyle
 //   as  <hasView> <activeTab> <ids,…>           GetActiveSheetIndex
 //   df  <nFonts> <hasName> <hasVal>             GetDefaultFont
@@ -473,8 +475,78 @@ func (c *c14Ctx) opAG(a c14Ag) {
 	}
 }
 
+func (c *c14Ctx) opGR(flags string) {
+	c14SiteInit()
+	var sb strings.Builder
+	for i, fl := range flags {
+		if fl == '1' {
+			fmt.Fprintf(&sb, `<row r="%d"><c r="A%d"><v>%d</v></c></row>`, i+1, i+1, i+1)
+		} else {
+			fmt.Fprintf(&sb, `<row r="%d"/>`, i+1)
+		}
+	}
+	sheet := `<?xml version="1.0" encoding="UTF-8" standalone="yes"?><worksheet ` + c14NS + `><sheetData>` + sb.String() + `</sheetData></worksheet>`
+	data := c14Patch(c14SiteBase.plain, "xl/worksheets/sheet1.xml", func(string) string { return sheet })
+	res := c14Open(data, func(f *xl.File) string {
+		rows, err := f.GetRows("Sheet1")
+		if err != nil {
+			return "ERR"
+		}
+		return "ok " + strconv.Itoa(len(rows))
+	})
+	if flags == "" {
+		flags = "-"
+	}
+	c.site("gr "+flags, res, "panic:GetRows:accounting", "GetRows slices / allocates out of range")
+}
+
+func (c *c14Ctx) opBS(str string) {
+	res := c14Guard(func() string { return "ok " + hx(xl.VerifBstrUnmarshal(str)) })
+	c.site("bs "+hx(str), res, "panic:bstrUnmarshal:index", fmt.Sprintf("bstrUnmarshal panics on %q", str))
+}
+
+// c14GenBS: every prefix of an escape at the end, in the middle and after another escape; escapes of
+// all classes (control, underscore, surrogate halves, non-hex); random strings over the escape alphabet.
+func c14GenBS(c *c14Ctx, rng *Rng, thorough bool) {
+	escs := []string{"_x000A_", "_x005F_", "_xD800_", "_xFFFF_", "_x0041_", "_xabCD_", "_x00e9_", "_x000G_", "_X000A_"}
+	for _, e := range escs {
+		for k := 0; k <= len(e); k++ {
+			pre := e[:k]
+			for _, ctxs := range [][2]string{{"", ""}, {"hello", ""}, {"hello", "x"}, {"_x0041_", ""}, {"_", ""}, {"_x005F", ""}, {"é", "_"}} {
+				c.opBS(ctxs[0] + pre + ctxs[1])
+			}
+		}
+	}
+	for _, s := range []string{"", "_", "__", "_x", "_x_x_x", "_x005F_x000A_", "_x005F__x000A_", "_x005F_x005F_", "_x000A__x000A_", "_x000A_x000A_", "_x_x000A_", "x000A_", "_x000A", "_x000", "\xff_x0041_\xfe", "_x0041_\xff"} {
+		c.opBS(s)
+	}
+	n := 400
+	if thorough {
+		n = 4000
+	}
+	alpha := []string{"_", "x", "0", "5", "F", "A", "d", "8", "G", "é", "_x", "_x00", "_x005F_", "_x000D_", "\xff", " "}
+	for i := 0; i < n; i++ {
+		var sb strings.Builder
+		for k := rng.Range(1, 12); k > 0; k-- {
+			sb.WriteString(rng.Pick(alpha))
+		}
+		c.opBS(sb.String())
+	}
+}
+
 // c14GenSites: boundary-heavy decoded values for every site.
 func c14GenSites(c *c14Ctx, rng *Rng, fx []*c14Fixture, thorough bool) {
+	c14GenBS(c, rng, thorough)
+	for _, fl := range []string{"", "0", "1", "00", "01", "10", "11", "0001", "1000", "0100010", "1111", "0000", "10000001"} {
+		c.opGR(fl)
+	}
+	for i := 0; i < 40; i++ {
+		var sb strings.Builder
+		for k := rng.Range(1, 30); k > 0; k-- {
+			sb.WriteByte("01"[rng.Intn(2)])
+		}
+		c.opGR(sb.String())
+	}
 	ids := []int{-9223372036854775808, -3, -1, 0, 1, 2, 3, 4, 7, 2147483648, 9223372036854775807}
 	ns := []int{-1, 0, 1, 2, 3}
 	n := 120
